@@ -1127,4 +1127,206 @@ theorem curl_shape_len {f g : Fld} (h : curl f = .ok g) :
                   exact ⟨by rw [lshift_shape h, lshift_shape hcxy, curlComp_shape hcx], lshift_len h⟩
         · cases h
 
+/-! ### the tail of the vector Laplacian: labels and mapping of the operand are put back -/
+
+theorem setVmap_ok {f g : Fld} {mp : Option (List (String × String))} (h : setVmap f mp = .ok g) :
+    g.mesh = f.mesh ∧ g.nvdim = f.nvdim ∧ g.data = f.data ∧ g.valid = f.valid ∧ g.vdims = f.vdims ∧
+    g.unit = f.unit ∧ vmapSet f.mesh f.nvdim f.vdims mp = .ok g.vmap := by
+  unfold setVmap at h
+  split at h
+  · cases h
+  · rename_i x hx
+    injection h with h; subst h
+    exact ⟨rfl, rfl, rfl, rfl, rfl, rfl, hx⟩
+
+theorem setVdims_ok {f g : Fld} {v : Option (List String)} (h : setVdims f v = .ok g) :
+    g.mesh = f.mesh ∧ g.nvdim = f.nvdim ∧ g.data = f.data ∧ g.valid = f.valid ∧ g.unit = f.unit ∧
+    vdimsSet f.nvdim v = .ok g.vdims := by
+  unfold setVdims at h
+  split at h
+  · cases h
+  · rename_i new hnew
+    split at h
+    · split at h
+      · split at h
+        · cases h
+        · obtain ⟨a1, a2, a3, a4, a5, a6, _⟩ := setVmap_ok h
+          exact ⟨a1, a2, a3, a4, a6, by rw [a5]; exact hnew⟩
+      · injection h with h; subst h
+        exact ⟨rfl, rfl, rfl, rfl, rfl, hnew⟩
+    · injection h with h; subst h
+      exact ⟨rfl, rfl, rfl, rfl, rfl, hnew⟩
+
+/-- with labels present, an accepted explicit mapping is stored as given -/
+theorem vmapSet_some_some {mesh : Mesh} {n : Nat} {vs : List String} {mp x : List (String × String)}
+    (h : vmapSet mesh n (some vs) (some mp) = .ok x) : x = mp := by
+  unfold vmapSet at h
+  simp only [] at h
+  split at h
+  · rename_i hc; exact absurd hc.2.2 (by simp)
+  · split at h <;>
+      first
+      | (injection h with e; exact e.symm)
+      | cases h
+      | (split at h <;> first | (injection h with e; exact e.symm) | cases h)
+
+/-- the tail of the vector Laplacian: `result.vdims = self.vdims; result.vdim_mapping = self.vdim_mapping` -/
+theorem lapTail_ok {r r' g : Fld} {vs : List String} {mp : List (String × String)} (hne : vs ≠ [])
+    (h1 : setVdims r (some vs) = .ok r') (h2 : setVmap r' (some mp) = .ok g) :
+    g.mesh = r.mesh ∧ g.nvdim = r.nvdim ∧ g.data = r.data ∧ g.valid = r.valid ∧ g.vdims = some vs ∧ g.vmap = mp := by
+  obtain ⟨a1, a2, a3, a4, _, a6⟩ := setVdims_ok h1
+  obtain ⟨b1, b2, b3, b4, b5, _, b7⟩ := setVmap_ok h2
+  obtain ⟨c1, _, _⟩ := vdimsSet_some hne a6
+  rw [c1] at b7 b5
+  exact ⟨by rw [b1, a1], by rw [b2, a2], by rw [b3, a3], by rw [b4, a4], b5, vmapSet_some_some b7⟩
+
+theorem lookup_zip_some (ls ds : List String) (k : Nat) (hk : k < ls.length) (hl : ls.length ≤ ds.length) :
+    ∃ d, Fld.lookup (List.zip ls ds) (ls.getD k "") = some d := by
+  induction ls generalizing ds k with
+  | nil => simp at hk
+  | cons l ls ih =>
+    cases ds with
+    | nil => simp at hl
+    | cons d ds =>
+      rw [List.zip_cons_cons, lookup_cons]
+      cases k with
+      | zero => exact ⟨d, by simp⟩
+      | succ k =>
+        simp only [List.getD_cons_succ]
+        by_cases he : (l == ls.getD k "") = true
+        · exact ⟨d, by rw [he]; rfl⟩
+        · simp only [he, if_false, Bool.false_eq_true]
+          exact ih ds k (by simpa using hk) (by simpa using hl)
+
+theorem transportMap_succeeds (mp : List (String × String)) : ∀ (ns os : List String), ns.length = os.length →
+    (∀ k, k < os.length → ∃ d, Fld.lookup mp (os.getD k "") = some d) →
+    ∃ r, transportMap mp ns os = .ok r ∧ r.map (·.1) = ns := by
+  intro ns
+  induction ns with
+  | nil => intro os _ _; exact ⟨[], by simp [transportMap], rfl⟩
+  | cons n ns ih =>
+    intro os hl hlook
+    cases os with
+    | nil => simp at hl
+    | cons o os =>
+      obtain ⟨d, hd⟩ := hlook 0 (by simp)
+      simp only [List.getD_cons_zero] at hd
+      obtain ⟨r, hr, hk⟩ := ih os (by simpa using hl) (fun k hk => by
+        have := hlook (k + 1) (by simpa using hk)
+        simpa using this)
+      exact ⟨(n, d) :: r, by simp only [transportMap, hd, hr], by simp [hk]⟩
+
+
+theorem vmapSet_some_succeeds (mesh : Mesh) (n : Nat) (vs : List String) (mp : List (String × String))
+    (h : mp = [] ∨ (mp.map (·.1)).isPerm vs = true) : vmapSet mesh n (some vs) (some mp) = .ok mp := by
+  unfold vmapSet
+  simp only []
+  have c1 : ¬ (mp.length = 1 ∧ n = 1 ∧ some vs = none) := by simp
+  rw [if_neg c1]
+  rcases h with rfl | h
+  · simp
+  · by_cases hl : 0 < mp.length
+    · simp only [hl, if_true, h]
+    · simp only [hl, if_false]
+
+theorem lapTail_succeeds (r : Fld) (vs : List String) (mp : List (String × String)) (hn : 2 ≤ r.nvdim)
+    (hd : r.mesh.region.dims.length = r.mesh.region.ndim)
+    (hv : r.vdims = posVdims r.nvdim) (hm : r.vmap = posVmap r.mesh r.nvdim)
+    (hvl : vs.length = r.nvdim) (hvd : hasDup vs = false)
+    (hkeys : mp = [] ∨ (mp.map (·.1)).isPerm vs = true) :
+    ∃ r' g, setVdims r (some vs) = .ok r' ∧ setVmap r' (some mp) = .ok g := by
+  obtain ⟨labels, hlab, hlen⟩ := defaultVdims_some r.nvdim hn
+  have hvs : vdimsSet r.nvdim (some vs) = .ok (some vs) := by
+    unfold vdimsSet
+    have c1 : ¬ (vs.length = 0) := by omega
+    have c2 : ¬ (vs.length ≠ r.nvdim) := by omega
+    simp only [c1, c2, hvd, if_false, Bool.false_eq_true]
+  have hr' : ∃ r', setVdims r (some vs) = .ok r' ∧ r'.mesh = r.mesh ∧ r'.nvdim = r.nvdim ∧ r'.vdims = some vs := by
+    unfold setVdims
+    rw [hvs, hv]
+    unfold posVdims
+    rw [hlab]
+    simp only []
+    by_cases hl : 0 < r.vmap.length
+    · rw [if_pos hl]
+      have h1 : ¬ (r.nvdim = 1) := by omega
+      have hnd : r.nvdim = r.mesh.region.ndim := by
+        by_contra h2
+        rw [hm] at hl
+        unfold posVmap at hl
+        simp only [h1, h2, if_false] at hl
+        simp at hl
+      have hz : r.vmap = List.zip labels r.mesh.region.dims := by
+        rw [hm]
+        unfold posVmap
+        rw [if_neg h1, if_pos hnd, hlab]
+      have hzip := And.intro hz hnd
+      obtain ⟨tm, htm, hkeys'⟩ := transportMap_succeeds r.vmap vs labels (by rw [hvl, hlen]) (fun k hk => by
+        rw [hzip.1]
+        exact lookup_zip_some labels _ k hk (by rw [hlen, hd, hzip.2]))
+      rw [htm]
+      simp only []
+      unfold setVmap
+      have := vmapSet_some_succeeds r.mesh r.nvdim vs tm (Or.inr (by rw [hkeys']; exact List.isPerm_iff.mpr (List.Perm.refl _)))
+      simp only [this]
+      exact ⟨_, rfl, rfl, rfl, rfl⟩
+    · rw [if_neg hl]
+      exact ⟨_, rfl, rfl, rfl, rfl⟩
+  obtain ⟨r', h1, m1, m2, m3⟩ := hr'
+  refine ⟨r', { r' with vmap := mp }, h1, ?_⟩
+  unfold setVmap
+  rw [m3, vmapSet_some_succeeds r'.mesh r'.nvdim vs mp hkeys]
+
+theorem lapComp_shape {f t : Fld} {v : String} (h : lapComp f v = .ok t) : t.data.shape = f.data.shape := by
+  unfold lapComp at h
+  split at h
+  · cases h
+  · rename_i ts hts
+    obtain ⟨t0, h0, hs⟩ := sumF_shape h
+    rw [hs]
+    obtain ⟨l, e⟩ := mapE_ok _ _ _ hts
+    cases ts with
+    | nil => simp at h0
+    | cons t1 ts' =>
+      simp at h0; subst h0
+      have hpos : 0 < f.mesh.region.dims.length := by rw [← l]; simp
+      have h00 := e 0 hpos (by simp)
+      simp only [List.getElem_cons_zero] at h00
+      split at h00
+      · cases h00
+      · rename_i c hc
+        rw [diffDim_shape h00, getComp_shape hc]
+
+theorem laplace_vector_shape_len {f g : Fld} {vs : List String} (hn : 2 ≤ f.nvdim) (hv : f.vdims = some vs)
+    (hvl : vs.length = f.nvdim) (h : laplace f = .ok g) :
+    g.data.shape = f.data.shape ∧ ∀ i, (g.data.get i).length = g.nvdim := by
+  unfold laplace at h
+  have h1 : ¬ (f.nvdim = 1) := by omega
+  rw [if_neg h1, hv] at h
+  simp only [] at h
+  split at h
+  · cases h
+  rename_i ds hds
+  obtain ⟨l, e⟩ := mapE_ok _ _ _ hds
+  split at h
+  · cases h
+  rename_i r hst
+  split at h
+  · cases h
+  rename_i r' hsv
+  have hne : vs ≠ [] := by intro he; subst he; simp at hvl; omega
+  obtain ⟨_, t2, t3, _, _, _⟩ := lapTail_ok hne hsv h
+  rw [t3, t2]
+  cases ds with
+  | nil => simp [stack] at hst
+  | cons d0 ds' =>
+    simp only [stack] at hst
+    have hne' : ds' ≠ [] := by intro he; subst he; simp at l; omega
+    refine ⟨?_, stackGo_len ds' d0 r hne' hst⟩
+    rw [stackGo_shape ds' d0 r hst]
+    have hpos : 0 < vs.length := by omega
+    have h00 := e 0 hpos (by simp)
+    simp only [List.getElem_cons_zero] at h00
+    exact lapComp_shape h00
+
 end DFV.C05
